@@ -18,21 +18,25 @@ EXACT = dict(untagged=True, dangling=False, withsubj=True, grace_ms=-1)
 def expected_survivors(gg, pre, tags):
     """closure of the tagged manifests; artifacts are retained when their subject is retained, or when the subject does
     not exist at all (dangling referrers are kept under this policy)"""
-    R = set()
+    R, RM = set(), set()
     for t, d in tags.items():
-        R |= c05.g_closure(gg, d, pre)
+        r1, r2 = c05.retained(gg, dict(pre, refs={}), [d])
+        R |= r1
+        RM |= r2
     changed = True
     while changed:
         changed = False
         for a, m in gg["man"].items():
             s = m.get("subject")
-            if not s or a in R or pre["blob"].get(a) != 200:
+            if not s or a in RM or pre["blob"].get(a) != 200:
                 continue
             # the artifact must still be recorded (listed under its subject) to be found at all
             if a not in pre["refs"].get(s, []):
                 continue
-            if (s in R and pre["blob"].get(s) == 200) or pre["blob"].get(s) != 200:
-                R |= c05.g_closure(gg, a, pre)
+            if (s in RM and pre["blob"].get(s) == 200) or pre["blob"].get(s) != 200:
+                r1, r2 = c05.retained(gg, dict(pre, refs={}), [a])
+                R |= r1
+                RM |= r2
                 changed = True
     return R
 
@@ -79,7 +83,12 @@ def oracle(ctx, case, io):
         # no index entry without content
         for d, (s, errs) in post["man"].items():
             if s != 200 and "MANIFEST_BLOB_UNKNOWN" in (errs or []):
-                sig = "C06:child-entry-without-blob" if (st["repo"], d) in blob_deleted and pre["man"].get(d, (0, None))[1] and "MANIFEST_BLOB_UNKNOWN" in pre["man"][d][1] else "C06:entry-without-blob"
+                # entries of the in-memory child list (children of an index or of a referrers response) are not pruned
+                childish = any(m["kind"] == "index" and d in m["refs"] for m in gg["man"].values()) or bool(gg["man"].get(d, {}).get("subject"))
+                tagged_now = d in rstate[k][0].values()
+                # known (F38) only when the content was already missing before this collection; an entry whose content
+                # this very collection removed must have been pruned with it
+                sig = "C06:child-entry-without-blob" if childish and not tagged_now and pre["blob"].get(d) != 200 else "C06:entry-without-blob"
                 ctx.violation("after the collection manifest %s is still recorded in the index but its content is gone" % d[:19], hist(digest=d), sig)
         for t, (s, d) in post["tag"].items():
             if s not in (200, 404):
@@ -93,8 +102,15 @@ def oracle(ctx, case, io):
                 diff = {x: (prev_post[st["repo"]][x], post[x]) for x in post if prev_post[st["repo"]][x] != post[x]}
                 # known: a child entry whose blob was deleted explicitly is only dropped when index.json is re-read
                 pm, qm = prev_post[st["repo"]]["man"], post["man"]
-                only_stale = set(diff) == {"man"} and all((st["repo"], d) in blob_deleted for d in qm if pm.get(d) != qm.get(d))
-                ctx.violation("a second collection changed the repository: %s" % str(diff)[:300], hist(),
+                def childish(d):
+                    return any(m["kind"] == "index" and d in m["refs"] for m in gg["man"].values()) or bool(gg["man"].get(d, {}).get("subject"))
+                def stale(d):
+                    a, b = pm.get(d) or (0, []), qm.get(d) or (0, [])
+                    return childish(d) and ("MANIFEST_BLOB_UNKNOWN" in (a[1] or []) + (b[1] or []) or (a[0] == 200 and b[0] == 404))
+                only_stale = set(diff) == {"man"} and all(stale(d) for d in qm if pm.get(d) != qm.get(d))
+                dd = {x: {d: (prev_post[st["repo"]][x].get(d), post[x].get(d)) for d in set(post[x]) | set(prev_post[st["repo"]][x]) if prev_post[st["repo"]][x].get(d) != post[x].get(d)}
+                      if isinstance(post[x], dict) else (prev_post[st["repo"]][x], post[x]) for x in diff}
+                ctx.violation("a second collection changed the repository: %s" % str(dd)[:300], hist(diff=dd),
                               "C06:child-entry-without-blob" if only_stale else "C06:not-idempotent")
         prev_post[st["repo"]] = post
         # exactness
